@@ -300,6 +300,10 @@ class TcpConnection(object):
         if len(self.__readBuffer) < 4:
             return _NO_MESSAGE
         l = struct.unpack('i', self.__readBuffer[:4])[0]
+        if l < 0:
+            # never valid; used as a slice bound below it would cut a "payload" out of whatever follows
+            self.disconnect()
+            return _NO_MESSAGE
         if len(self.__readBuffer) - 4 < l:
             return _NO_MESSAGE
         data = self.__readBuffer[4:4 + l]
